@@ -190,6 +190,7 @@ func init() {
 	})
 	properties["C06"].Units = append(properties["C06"].Units,
 		l3Unit("strings", map[string]int{"KINDS": 1, "DEPTH": 0}, "C06.", "string properties: 8 constraint shapes x nullable x required x inline/$ref"),
+		l3Unit("strings-with-an-unmapped-format", map[string]int{"KINDS": 1, "DEPTH": 0, "STRFMT": 1, "STRSHAPES": 3}, "C06.", "constrained strings that also carry a format the generator maps to no library type (email, uuid, hostname): the format is an annotation, the length and pattern rules still hold"),
 		l3Unit("strings-with-defaults", map[string]int{"KINDS": 1, "DEPTH": 0, "DEFAULTS": 1, "NONULL": 1, "STRSHAPES": 8}, "C06.", "string properties with a default that satisfies their own constraints: an absent or null optional string is never checked (the default is, and it is valid)"),
 		l3Unit("strings-in-arrays-and-objects", map[string]int{"KINDS": 48, "DEPTH": 1, "ITEMKINDS": 1, "STRSHAPES": 3}, "C06.", "strings as array items and as members of a nested object"))
 	reg(&Property{
@@ -253,6 +254,8 @@ func init() {
 	reg(&Property{ID: "C03", Units: append(l3All("C03."), collidingNamesUnit("C03."),
 		l3Unit("objects-with-additional-properties", map[string]int{"KINDS": 16384, "DEPTH": 1, "E": 2, "N": 1}, "C03.",
 			"an object with a declared property AND typed additionalProperties: an undeclared member of another JSON type is rejected"),
+		l3UnitT("integers/min-sized", map[string]int{"KINDS": 4, "DEPTH": 0, "MINSIZED": 1, "NUMSHAPEMASK": 9, "REF": 1}, map[string]int{"KINDS": 4, "DEPTH": 0, "MINSIZED": 1, "NUMSHAPEMASK": 41}, "C03.",
+			"integer properties with --min-sized-ints on and off: another JSON kind and non-integral numbers are rejected, null is accepted where the type list has it (and yields nil)"),
 		l3UnitT("null-typed-positions", map[string]int{"KINDS": 8208, "DEPTH": 1, "ITEMKINDS": 8192, "ARRSHAPES": 4, "N": 1}, map[string]int{"KINDS": 8208, "DEPTH": 1, "ITEMKINDS": 8192, "ARRSHAPES": 4, "N": 2}, "C03.",
 			"positions of type null (a property; the items of an array with every combination of minItems/maxItems): only null is accepted there, any other JSON value is rejected"))})
 	reg(&Property{ID: "C08", Units: []Unit{
